@@ -88,6 +88,11 @@ func makeGeneratorDescs(
 					IndexPath: path,
 				}
 				structField.applyTags(reflectField)
+				// A field of an embedded struct is hidden by a field of the
+				// same name declared at a shallower depth (as in Go itself).
+				if existing, exists := generatorDescs[structField.Name]; exists && len(existing.field.IndexPath) <= len(path) {
+					continue
+				}
 				generatorDescs[structField.Name] = &structBuilderGeneratorDesc{
 					field:            structField,
 					builderGenerator: builderGenerator,
